@@ -7,6 +7,7 @@
 import DxModel.GraphCheck
 import Driver.Proto
 import Driver.Shuffle
+import Driver.Cut
 import Driver.Repartition
 import Driver.Pred
 import Driver.Cache
@@ -35,6 +36,7 @@ def handleCore : List String → Option String
 def handlers : List (List String → Option String) :=
   [ handleCore
   , Dx.Drv.Shuffle.handle
+  , Dx.Drv.Cut.handle
   , Dx.Drv.Repartition.handle
   , Dx.Drv.Pred.handle
   , Dx.Drv.Cache.handle
